@@ -156,6 +156,8 @@ def cex_values(model, **named_values):
     def ev(x):
         if isinstance(x, (list, tuple)):
             return [ev(y) for y in x]
+        if isinstance(x, dict):
+            return {k: ev(v) for k, v in x.items()}
         if isinstance(x, (R, B, Sp)):
             v = symx.mval(model, x)
             if isinstance(v, Fraction):
